@@ -51,6 +51,24 @@ _ADD2 = {
     "C20": ("; per-thread pad characters in the writef operations", ""),
     "C16": ("; slots live in mappings of their own (fences + guard pages)", ""),
 }
+_ADD3 = {
+    "C01": ("; length sweep 0..70 (300) copies of a 1-/2-/3-/4-byte scalar through all routes; std::filesystem::path routes", " Every length across the in-object limits of all buffer types is enumerated for all routes, and the std::filesystem::path routes are compared with the UTF-8 text."),
+    "C03": ("; Latin-1 sources: every byte alone / next to 41, 80, FF, bare and behind a prefix; a reduced ASan+UBSan build runs in the quick tier", " Latin-1 sources are enumerated like the other encodings."),
+    "C04": ("; set(self), null sources, operator=(null_t), own to_path(); concatenation with every character / pointer type on either side; += with every text and character type on a copy in every state", ""),
+    "C05": ("; non-const accessors, reverse iterators and comparison with ST::null among the reads", ""),
+    "C08": ("; const char8_t* separator form", ""),
+    "C09": ("; const char8_t* forms of split and replace", ""),
+    "C10": ("; 10 numbers beyond the int range in 13 field positions; std::complex, std::filesystem::path and char8_t arguments in the value battery", " Numbers beyond the int range are placed in every numeric position of a field."),
+    "C12": ("; every stream fill level capacity-21..capacity+1 (256/512/1,024) for selected values", ""),
+    "C13": ("; stream insertion at every fill level capacity-20..capacity+2 (256/512/1,024) x 25 values x float/double", " Stream insertion is repeated with the stream at every fill level around its capacity boundaries."),
+    "C16": ("; null pointers of every character type, std::filesystem::path insertion", ""),
+    "C17": ("; 46 single-argument types incl. std::complex, std::filesystem::path, wide STL strings and views; single-character pieces behind a first piece of every length; ST::format may throw unicode_error only when the produced bytes are not valid UTF-8", " A unicode_error from ST::format is accepted only if the bytes the same call writes to a narrow stream are not valid UTF-8."),
+    "C19": ("; stream insertion of integers / doubles / text at every fill level capacity-14..capacity under fault; extraction of a token that needs the string's heap storage", ""),
+    "C20": ("; every operation's result on a worker thread is compared with its result on the main thread", " An operation's result may depend on its arguments only: the solo result on a worker thread must equal the result of the same call on the main thread."),
+}
+for _pid, (_b, _t) in _ADD3.items():
+    _b0, _t0 = _ADD.get(_pid, ("", ""))
+    _ADD[_pid] = (_b0 + _b, _t0 + _t)
 for _pid, (_b, _t) in _ADD2.items():
     _b0, _t0 = _ADD[_pid]
     _ADD[_pid] = (_b0 + _b, _t0 + _t)
